@@ -269,7 +269,10 @@ def exec_swaps(bs, terms, offset, qn_size, via, algo, swaps, mpo=None):
                 events.append(("swap:single-term-operator:AttributeError", idx, res))
                 return events, n_ok, worst
             if isinstance(e, AssertionError):
-                events.append((f"swap:{cls}:AssertionError@{last_library_frame(e)}", idx, res))
+                # qr anywhere in the object's history (construction or an earlier successful swap) leaves
+                # rounding-noise entries in the bond operators; keep that input class in the signature
+                hist = "" if cls == "qr" else (":qr-in-history" if uses_qr else ":graph-only-history")
+                events.append((f"swap:{cls}:AssertionError@{last_library_frame(e)}{hist}", idx, res))
             else:
                 events.append((f"swap:{cls}:exception:{type(e).__name__}", idx, res))
                 return events, n_ok, worst
